@@ -57,7 +57,7 @@ Bound == steps < MaxSteps /\ steps' = steps + 1
 Unstarted == \E i \in Slots : task[i].st = "new" /\ ~task[i].must
 
 AssignAsync(kd) ==
-  /\ Bound /\ nasg < N /\ kd \in KindsA \cap {"coro", "gen"}
+  /\ Bound /\ nasg < N /\ kd \in KindsA \cap {"coro", "gen", "bad"}
   /\ LET i == nasg + 1
          f0 == [fut EXCEPT ![i] = IF kd = "gen" THEN <<"pending", "pending">> ELSE <<"pending", "none">>]
          c == CancelT(aref, [task EXCEPT ![i] = [st |-> "new", k |-> 0, must |-> FALSE]], f0, Append(ready, i))
@@ -93,7 +93,9 @@ Resolve(i, k) ==
 RECURSIVE Run(_, _, _)
 Run(t, k, v) ==
   IF k > NY(t) THEN [v |-> v, st |-> "done", k |-> 0]
-  ELSE IF fut[t][k] = "done" THEN Run(t, k + 1, Result(t, k))
+  \* ("bad": a coroutine whose result the parameter rejects -- applying it raises inside the task, the value
+  \*  stays, the task ends and unregisters like any other)
+  ELSE IF fut[t][k] = "done" THEN (IF kind[t] = "bad" THEN [v |-> v, st |-> "done", k |-> 0] ELSE Run(t, k + 1, Result(t, k)))
   ELSE [v |-> v, st |-> "wait", k |-> k]
 
 Tick ==
@@ -130,7 +132,7 @@ Tick ==
             /\ task' = [task EXCEPT ![t] = [st |-> run.st, k |-> run.k, must |-> FALSE]]
             /\ aref' = IF run.st = "done" /\ aref = t THEN 0 ELSE aref
             /\ ready' = r0
-            /\ lateapply' = (lateapply \/ t # nasg)
+            /\ lateapply' = (lateapply \/ (t # nasg /\ kind[t] # "bad"))
             /\ Vis([a |-> "tick", t |-> t, what |-> "apply", obs |-> ObsOf(run.v, fut), kf |-> {}])
             /\ UNCHANGED <<kind, nasg, hasref, fut, tainted>>
        [] task[t].st = "wait" /\ fut[t][task[t].k] = "cancelled" ->
@@ -142,7 +144,7 @@ Tick ==
             /\ ready' = r0 /\ Vis([a |-> "tick", t |-> t, what |-> "noop", obs |-> ObsOf(val, fut), kf |-> {}])
             /\ UNCHANGED <<val, kind, nasg, hasref, aref, task, fut, tainted, lateapply>>
 
-Next == (\E kd \in {"coro", "gen"} : AssignAsync(kd)) \/ AssignPlain \/ (\E i \in Slots, k \in 1..2 : Resolve(i, k)) \/ Tick
+Next == (\E kd \in {"coro", "gen", "bad"} : AssignAsync(kd)) \/ AssignPlain \/ (\E i \in Slots, k \in 1..2 : Resolve(i, k)) \/ Tick
 Spec == Init /\ [][Next]_vars
 
 \* ---- C10 ------------------------------------------------------------------------------------
@@ -151,7 +153,7 @@ Quiescent == ready = <<>> /\ \A i \in Slots : ~Live(i) \/ (task[i].st = "wait" /
 AllDone(i) == \A k \in 1..NY(i) : fut[i][k] = "done"
 Expected == IF nasg = 0 THEN 0 ELSE IF kind[nasg] = "plain" THEN 3000 + nasg ELSE Result(nasg, NY(nasg))
 \* once everything has completed the parameter holds the result of the most recent assignment
-LatestWins == (~tainted /\ Quiescent /\ nasg > 0 /\ (kind[nasg] # "plain" => AllDone(nasg))) => val = Expected
+LatestWins == (~tainted /\ Quiescent /\ nasg > 0 /\ kind[nasg] # "bad" /\ (kind[nasg] # "plain" => AllDone(nasg))) => val = Expected
 \* a result of a superseded reference is never applied after a newer assignment
 NoLateApply == ~tainted => ~lateapply
 \* a plain value cancels pending references for good: afterwards no task of an older assignment is live
